@@ -362,7 +362,49 @@ def rule_PF(facts):
             out.append(Inst('R-PF', 'R-PF|d|feature-independence', 'ok', '',
                             '%d bodies identical with and without feature `prefetch`; only prefetch_read_NTA differs (%d)' % (len(FA.fns) - len(diff), len(diff)), props,
                             sample={'bodies_compared': len(FA.fns), 'differing': diff}))
+    # (f) the estimates of the prefetching phase are estimates: no assertion (debug or not) may depend on a value obtained
+    #     from the sampled ranks -- "imprecise but never a panic"
+    for base in ('quadwt::QWaveletTree', 'quadwt::huffqwt::HuffQWaveletTree'):
+        for f in FA.lib_fns(include_closures=False):
+            if f.get('_base') != base or 'prefetch' not in f['name']:
+                continue
+            G = FA.inlined(f, _keep_prefetch_support)
+            F = FA.fn(G)
+            F.dom()
+            seeds = [t['dest']['l'] for bi, t in F.calls() if t['f']['fn']['name'] in ('approx_rank_unchecked',) and not t['dest']['proj']]
+            if not seeds:
+                continue
+            T = taint_all(F, seeds)
+            bad = None
+            asserts = set(F.debug_switches())
+            for bi, b in enumerate(F.blocks):
+                t = b['t']
+                if t['k'] == 'switch' and any(m in ('assert', 'assert_eq', 'assert_ne') or m.startswith('debug_assert') for m in t.get('macros', [])):
+                    asserts.add(bi)
+            for bi in sorted(asserts):
+                if bi not in F.reach:
+                    continue
+                d = F.blocks[bi]['t']['d']
+                ls = set(operand_locals(d))
+                # the discriminant is a temporary: look one definition back
+                for l in list(ls):
+                    for dd in F.defs.get(l, []):
+                        if dd[1] == 'assign':
+                            for o in [dd[2].get('a'), dd[2].get('b')]:
+                                if o:
+                                    ls |= set(operand_locals(o))
+                if ls & T:
+                    bad = F.blocks[bi]['t'].get('line', '')
+            key = 'R-PF|f|%s::%s' % (base, f['name'])
+            if bad:
+                out.append(Inst('R-PF', key, 'violation', bad, 'an assertion in the prefetching phase depends on a sampled (approximate) rank: the estimate may be off by one sample, the assertion turns an imprecise hint into a panic', props + ['C10']))
+            else:
+                out.append(Inst('R-PF', key, 'ok', f['span'], 'no assertion depends on a sampled rank', props))
     return out
+
+
+def _keep_prefetch_support(g):
+    return default_inline_policy(g) and 'PrefetchSupport' not in g['path']
 
 
 def taint_all(F, seeds):
